@@ -172,7 +172,7 @@ type Witness struct {
 }
 
 type AssertStat struct {
-	Checked, Trivial, Unsat, Sat, Unknown int
+	Checked, Trivial, Unsat, Sat, Unknown, Skipped int
 }
 
 type HarnessResult struct {
@@ -218,19 +218,47 @@ func (r *HarnessResult) RetryUnknowns(mk func() *Solver) (closed int) {
 	if len(r.Retry) == 0 {
 		return 0
 	}
-	s := mk()
-	defer s.Close()
-	for _, q := range r.Retry {
-		if s.CheckFresh(q.Decls, q.Asserts, 2*q.Ms) == "unsat" {
-			if st := r.Asserts[q.Label]; st != nil && st.Unknown > 0 {
-				st.Unknown--
-				st.Unsat++
-				r.Unknowns--
-				closed++
-			}
-		}
+	// a harness that already has a violation is decided (exit 1 after confirmation): its undecided queries cannot change
+	// the verdict, and with a broken callee they are typically satisfiable queries the solver cannot find a model for
+	if len(r.Violations) > 0 {
+		return 0
 	}
-	r.Queries += len(r.Retry)
+	// four at a time, within a wall-clock budget of ten minutes per harness (whatever is left stays inconclusive)
+	deadline := time.Now().Add(10 * time.Minute)
+	var mu sync.Mutex
+	var wg sync.WaitGroup
+	next := 0
+	for w := 0; w < 4; w++ {
+		wg.Add(1)
+		go func() {
+			defer wg.Done()
+			s := mk()
+			defer s.Close()
+			for {
+				mu.Lock()
+				if next >= len(r.Retry) || time.Now().After(deadline) {
+					mu.Unlock()
+					return
+				}
+				q := r.Retry[next]
+				next++
+				mu.Unlock()
+				res := s.CheckFresh(q.Decls, q.Asserts, 2*q.Ms)
+				mu.Lock()
+				r.Queries++
+				if res == "unsat" {
+					if st := r.Asserts[q.Label]; st != nil && st.Unknown > 0 {
+						st.Unknown--
+						st.Unsat++
+						r.Unknowns--
+						closed++
+					}
+				}
+				mu.Unlock()
+			}
+		}()
+	}
+	wg.Wait()
 	return closed
 }
 
@@ -799,6 +827,23 @@ func (e *Engine) assertExcept(c *Term, label, finding string, pred *Term) {
 	e.res.mu.Unlock()
 	active := finding != "" && e.spec.Findings[finding]
 	neg := Not(c)
+	if !active {
+		// an assertion that already has three recorded counter-examples in this harness is decided: further paths are not
+		// queried (with a broken callee they are mostly satisfiable nonlinear queries that only burn the time limit)
+		e.res.mu.Lock()
+		n := 0
+		for _, v := range e.res.Violations {
+			if v.Label == label {
+				n++
+			}
+		}
+		if n >= 3 {
+			st.Skipped++
+			e.res.mu.Unlock()
+			return
+		}
+		e.res.mu.Unlock()
+	}
 	if active {
 		// known part
 		r, _, _ := e.checkNeg(And(neg, pred))
